@@ -73,7 +73,7 @@ impl Await {
                     // NOTE: We need to get the object before resuming, since it could clear the stack.
                     let async_generator = r#gen.async_generator_object()?;
 
-                    r#gen.resume(
+                    let record = r#gen.resume(
                         Some(args.get_or_undefined(0).clone()),
                         GeneratorResumeKind::Normal,
                         context,
@@ -84,6 +84,15 @@ impl Await {
                             .downcast_mut::<AsyncGenerator>()
                             .js_expect("must be async generator")?
                             .context = Some(r#gen);
+                    }
+
+                    // The body turns every exception into a rejection of its promise, so
+                    // only errors that scripts cannot catch (runtime limits) end up here:
+                    // report them to whoever runs the job instead of dropping them.
+                    if let CompletionRecord::Throw(err) = record
+                        && !err.is_catchable()
+                    {
+                        return Err(err);
                     }
 
                     // e. Assert: When we reach this step, asyncContext has already been removed from the execution context stack and prevContext is the currently running execution context.
@@ -114,7 +123,7 @@ impl Await {
                     // NOTE: We need to get the object before resuming, since it could clear the stack.
                     let async_generator = r#gen.async_generator_object()?;
 
-                    r#gen.resume(
+                    let record = r#gen.resume(
                         Some(args.get_or_undefined(0).clone()),
                         GeneratorResumeKind::Throw,
                         context,
@@ -125,6 +134,15 @@ impl Await {
                             .downcast_mut::<AsyncGenerator>()
                             .js_expect("must be async generator")?
                             .context = Some(r#gen);
+                    }
+
+                    // The body turns every exception into a rejection of its promise, so
+                    // only errors that scripts cannot catch (runtime limits) end up here:
+                    // report them to whoever runs the job instead of dropping them.
+                    if let CompletionRecord::Throw(err) = record
+                        && !err.is_catchable()
+                    {
+                        return Err(err);
                     }
 
                     Ok(JsValue::undefined())
